@@ -66,7 +66,8 @@ PROPS = {
     "C10": dict(scans=_scans_state_writers),
     "C11": dict(scans=lambda p, s, t: [scan.scan_immutables(p, s, t)]),
     "C13": dict(level="other", extra=lambda prog, S, tier, seed: [__import__("extras").run_child("trace_float_grid", REPO, 20000 if tier == "quick" else 100000),
-                                                    __import__("extras").run_child("trace_replay_random", REPO, seed, 300 if tier == "quick" else 3000)]),
+                                                    __import__("extras").run_child("trace_replay_random", REPO, seed, 300 if tier == "quick" else 3000),
+                                                    __import__("extras").run_child("gentrace_roundtrip", REPO, seed, 40 if tier == "quick" else 600)]),
     "C19": dict(level="other", scans=_scan_suspend,
                 extra=lambda prog, S, tier, seed: [__import__("extras").run_children("rest_bridge", REPO, seed, 48 if tier == "quick" else 960, procs=12)]),
     "C20": dict(level="other", extra=lambda prog, S, tier, seed: [__import__("extras").run_child("snap_float_grid", REPO, 20000 if tier == "quick" else 200000),
